@@ -7,6 +7,7 @@ class Expression:
     defines_local = False
     has_params = False
 
+    is_call = False
     is_commented = True
     is_reference = False
     is_tagged = True
@@ -25,7 +26,15 @@ class Expression:
     def compile(self, out, flags):
         if not out.has_available_blocks(self.num_blocks):
             func, params = self.functionalize(out, flags, is_generator=False)
-            out += (STATUS, RESULT, POS) << func(*params)
+            call = func(*params)
+
+            # Rule calls are yielded to the driver. If the code that moves into
+            # the helper function contains one, the helper is a generator (which
+            # returns the three registers) and has to be delegated to.
+            if self._yields_to_driver():
+                call = Code('(yield from ', call, ')')
+
+            out += (STATUS, RESULT, POS) << call
             return
 
         if self.is_tagged:
@@ -71,6 +80,20 @@ class Expression:
                 method((STATUS, RESULT, POS))
 
         return Code(name), [Code(x) for x in params]
+
+    def _yields_to_driver(self):
+        found = []
+
+        def check(node):
+            if (
+                node.is_reference
+                or node.is_call
+                or getattr(node, 'skip_ignored', False)
+            ):
+                found.append(node)
+
+        visit(self, check)
+        return bool(found)
 
     def freevars(self):
         counter = SymbolCounter()
